@@ -452,9 +452,9 @@ pub func obj.sat(x: base.u8, y: base.u8) base.u8 {
 	})
 
 	add("t14_cgen_checked_arg_with_result", testFile{
-		Note:              "a pub non-coroutine with a refined (or I/O) argument and a result: the argument check returns wuffs_base__make_empty_struct(), which does not compile; the interpreter refuses such cases",
-		ExpectCEvents:     []string{"C11:cc-failed"},
-		ExpectUnsupported: true,
+		Note:          "a pub non-coroutine with a refined (or I/O) argument and a result: the argument check returns wuffs_base__make_empty_struct(), which does not compile (Program.CGenIssues lists the shape)",
+		ExpectCEvents: []string{"C11:cc-failed"},
+		ExpectDiff:    true,
 		Case: mk(`
 pub struct obj?(
         v : base.u32,
